@@ -4,7 +4,7 @@ import random
 
 import numpy as np
 
-from vlib import clock, graphs as G, gens
+from vlib import alias, clock, graphs as G, gens
 from vlib.base import import_dsw
 from vlib.coding import monitored, ArgGuard
 from vlib.proxies import frozen
@@ -56,6 +56,10 @@ def _pred(spec, k):
     if kind == "one":
         target = G.kmer(spec["seed"] % (4 ** k), k)
         return lambda s: s == target
+    if kind == "few":
+        r = random.Random(spec["seed"])
+        keep = {G.kmer(r.randrange(4 ** k), k) for _ in range(spec.get("count", 1))}
+        return lambda s: s in keep
     if kind == "doc-gc":
         w, bias = spec["w"], spec["bias"]
 
@@ -113,8 +117,47 @@ def make_user_filter(dsw, spec, k, log):
     return UserFilter(), pred
 
 
+class _Asym:
+    """Built lazily: a user filter that *subclasses LocalBioFilter* and adds a rule that is not strand-symmetric."""
+    cls = None
+
+
+def asym_filter(dsw, k, cfg, banned):
+    if _Asym.cls is None:
+        class AsymmetricLocalFilter(dsw.LocalBioFilter):
+            def __init__(self, banned_words, **kw):
+                super().__init__(**kw)
+                self.banned_words = list(banned_words)
+
+            def valid(self, dna_sequence, only_last=True):
+                if not super().valid(dna_sequence, only_last=only_last):
+                    return False
+                seen = dna_sequence[-self.observed_length:] if only_last else dna_sequence
+                return not any(w in seen for w in self.banned_words)     # e.g. forbids GGG but allows CCC
+        _Asym.cls = AsymmetricLocalFilter
+    return _Asym.cls(banned, observed_length=k, max_homopolymer_runs=cfg["run"], gc_range=cfg["gc"], undesired_motifs=cfg["motifs"])
+
+
 def generate(ctx):
     rng = ctx.rng
+    j = 0
+    for k in range(1, 7):                      # filters accepting exactly 1, 2, 3 and 5 k-mers, at every order
+        for count in (1, 2, 3, 5):
+            if ctx.mine(j):
+                yield "find", dict(k=k, kind="user", spec=dict(pred="few", seed=rng.getrandbits(30), count=count, p=0, w=1, bias=0,
+                                                              ret=rng.choice(["bool", "npbool", "int"]), style="documented"))
+            j += 1
+    for _ in range(ctx.pick(20, 200)):
+        k = rng.choice([2, 3, 3, 4])
+        cfg = dict(run=rng.choice([None, 2, 3]), gc=rng.choice([None, [0.25, 0.75], [0.0, 1.0]]), motifs=None)
+        if cfg["run"] is not None:
+            cfg["run"] = min(cfg["run"], k)
+        w = rng.choice(["GGG", "GG", "AC", "TTG", "CAT"])[:k]
+        yield "find", dict(k=k, kind="asym", cfg=cfg, banned=[w])
+    for _ in range(ctx.pick(20, 200)):
+        k = rng.choice([2, 3, 4])
+        yield "filter_sequence", dict(k=k, run0=rng.choice([None, min(3, k), 2]), run1=rng.choice([1, 2]), motif=gens.random_dna(rng, rng.randint(1, k)),
+                                      gc=rng.choice([None, [0.25, 0.75]]))
     for m in range(65536):
         if ctx.mine(m):
             yield "valid_graph", dict(k=2, mask="%x" % m, dtype="bool", fam="exhaustive")
@@ -147,7 +190,20 @@ def check_valid_graph(ctx, case):
     S = {i for i in range(n) if mask[i]}
     fm = frozen(mask)
     guard = ArgGuard(vertices=fm)
+    if ctx.rng.random() < (0.02 if case["fam"] == "exhaustive" else 0.5):
+        # G3 noise: an unrelated generation call of the same order, on another mask, just before the checked call
+        other = np.array([ctx.rng.random() < 0.6 for _ in range(n)])
+        try:
+            dsw.connect_coding_graph(k, other, ctx.rng.choice([1, 2]))
+        except Exception:  # noqa - not the call under observation
+            pass
+        ctx.cls("valid-graph|preceded by an unrelated coding-graph call")
     out = monitored(dsw.connect_valid_graph, 200 * n + 5000, k, fm)
+    if out.kind == "ok" and ctx.rng.random() < 0.05:
+        checked, same, second = alias.repeat_after_scramble(dsw.connect_valid_graph, (k, fm), {}, out.value)   # G1
+        if checked:
+            ctx.cls("valid graph repeated after the first result was scrambled")
+            out = monitored(dsw.connect_valid_graph, 200 * n + 5000, k, fm)
     where = "connect_valid_graph(k=%d, mask=%s as %s)" % (k, case["mask"], case["dtype"])
     if not S:
         if out.kind == "ok":
@@ -177,7 +233,11 @@ def check_find(ctx, case):
     k = case["k"]
     kmers = ["".join(t) for t in itertools.product("ACGT", repeat=k)]
     log = []
-    if case["kind"] == "local":
+    if case["kind"] == "asym":
+        f = asym_filter(dsw, k, case["cfg"], case["banned"])
+        want = [bool(f.valid(s)) for s in kmers]
+        what = "subclass of LocalBioFilter(%s) that also bans %s" % (case["cfg"], case["banned"])
+    elif case["kind"] == "local":
         cfg = case["cfg"]
         try:
             f = dsw.LocalBioFilter(observed_length=k, max_homopolymer_runs=cfg["run"], gc_range=cfg["gc"], undesired_motifs=cfg["motifs"])
@@ -190,6 +250,11 @@ def check_find(ctx, case):
         want = [bool(pred(s)) for s in kmers]
         what = "user filter %s" % case["spec"]
     out = monitored(dsw.find_vertices, 400 * 4 ** k + 5000, k, f)
+    if out.kind == "ok" and ctx.rng.random() < 0.3:
+        checked, same, second = alias.repeat_after_scramble(dsw.find_vertices, (k, f), {}, out.value)   # G1
+        if checked:
+            ctx.cls("find repeated after the first mask was scrambled")
+            out = monitored(dsw.find_vertices, 400 * 4 ** k + 5000, k, f)
     if not any(want):
         if out.kind == "ok":
             ctx.fail("accept-none-returned", "find_vertices(k=%d, %s) returned although the filter accepts no k-mer" % (k, what))
@@ -206,7 +271,7 @@ def check_find(ctx, case):
             ctx.fail("mask-differs", "find_vertices(k=%d, %s): mask differs from the filter at k-mers %s" % (k, what, [(i, kmers[i]) for i in bad]))
         ctx.cls("find|accepts some")
     if case["kind"] == "user":
-        seen = [s for s, _n, _kw in log]
+        seen = [s for s, _n, _kw in log][:len(kmers)]
         if sorted(seen) == sorted(kmers):
             ctx.cls("spy|called with every k-mer exactly once")
         else:
@@ -217,12 +282,41 @@ def check_find(ctx, case):
         ctx.cls("user|style=%s" % case["spec"]["style"])
         ctx.cls("user|ret=%s" % case["spec"]["ret"])
         ctx.cls("user|pred=%s" % case["spec"]["pred"])
+    elif case["kind"] == "asym":
+        ctx.cls("user|subclass of LocalBioFilter with an asymmetric rule")
     else:
         ctx.cls("local filter")
+    if case["kind"] == "user" and case["spec"]["pred"] == "few":
+        ctx.cls("filter accepting %d k-mer(s) at k=%d" % (sum(want), k))
     ctx.done("find", case, any(want) and not all(want))
 
 
-CHECKS = {"valid_graph": check_valid_graph, "find": check_find}
+def check_filter_sequence(ctx, case):
+    """G2: the same filter object is tightened between two find_vertices calls; the second mask must follow the
+    *current* settings of the filter."""
+    dsw = import_dsw()
+    k = case["k"]
+    kmers = ["".join(t) for t in itertools.product("ACGT", repeat=k)]
+    f = dsw.LocalBioFilter(observed_length=k, max_homopolymer_runs=case["run0"], gc_range=case["gc"], undesired_motifs=[])
+    for stage in range(3):
+        want = [bool(f.valid(s)) for s in kmers]
+        out = monitored(dsw.find_vertices, 400 * 4 ** k + 5000, k, f)
+        if not any(want):
+            if out.kind == "ok":
+                ctx.fail("accept-none-returned", "stage %d: find_vertices returned although the filter now accepts nothing" % stage)
+        elif out.kind != "ok" or [bool(x) for x in np.asarray(out.value).tolist()] != want:
+            ctx.fail("mask-stale-after-filter-edit", "stage %d: after the filter object was edited in place (run limit %s, motifs %s) find_vertices %s" % (
+                stage, f.max_homopolymer_runs, f.undesired_motifs, out.describe() if out.kind != "ok" else "returned the mask of the earlier settings"))
+            break
+        if stage == 0:
+            f.max_homopolymer_runs = case["run1"]
+        elif stage == 1:
+            f.undesired_motifs.append(case["motif"])
+    ctx.cls("filter object edited between calls")
+    ctx.done("filter_sequence", case, True)
+
+
+CHECKS = {"valid_graph": check_valid_graph, "find": check_find, "filter_sequence": check_filter_sequence}
 
 
 def floors(agg, tier):
@@ -231,7 +325,10 @@ def floors(agg, tier):
     for name, need in (("find|accepts some", 500), ("find|accepts none", 30), ("user|style=documented", 200),
                        ("user|style=dna_sequence", 50), ("user|style=posonly", 50), ("user|ret=npbool", 50), ("user|ret=int", 50),
                        ("user|pred=positional", 30), ("user|pred=doc-gc", 30), ("local filter", 300),
-                       ("valid-graph|empty mask", 2), ("valid-graph|non-empty mask", 100000)):
+                       ("valid-graph|empty mask", 2), ("valid-graph|non-empty mask", 100000),
+                       ("valid-graph|preceded by an unrelated coding-graph call", 1000), ("filter object edited between calls", 100),
+                       ("user|subclass of LocalBioFilter with an asymmetric rule", 100), ("filter accepting 1 k-mer(s) at k=6", 1),
+                       ("filter accepting 2 k-mer(s) at k=6", 1), ("find repeated after the first mask was scrambled", 100)):
         if c.get(name, 0) < need:
             out.append("%s observed %d < %d" % (name, c.get(name, 0), need))
     return out
